@@ -5,47 +5,47 @@ HOOK_COMMITS = ["173a0a4", "9168683"]
 TEXT = {
     "C01": {
         "technique": "property-based testing (rapid) with an independent NIP-01 serializer + btcec signing as oracle; single-alteration metamorphic checks; native go fuzz target in the thorough tier",
-        "level_text": "Exploration: generated events over all Unicode scalar values are serialized, signed and altered; Serialize() must equal an independently written canonical serializer byte for byte, every signed event must verify and each of ~14 single alterations must not. Sound, not exhaustive.",
+        "level_text": "Exploration: generated events over all Unicode scalar values are serialized, signed and altered; Serialize() must equal an independently written canonical serializer byte for byte, every signed event must verify and each of ~14 single alterations must not. Sound, not exhaustive. A relay-gate stage sends signed events and altered copies over a real WebSocket connection; a many-authors stage verifies 1030-2100 distinct keys in one process and then forged cross-key claims.",
         "level_note": "Trusted: harness/gen/nip01.go canonical serializer (written from the NIP text), btcec/v2/schnorr as BIP-340 implementation, crypto/sha256. Strings are valid UTF-8.",
     },
     "C03": {
         "technique": "stateful property-based testing (rapid): generated insertion histories, after every step generated filter lists are queried and judged by a tie-tolerant reference query oracle over the observed retained set",
-        "level_text": "Exploration: thousands of histories x queries after every step; the oracle accepts exactly the answers that are unions of 'limit newest matching' sets under some tie-break, so index-path and scan-path filters are held to the same specification.",
+        "level_text": "Exploration: thousands of histories x queries after every step; the oracle accepts exactly the answers that are unions of 'limit newest matching' sets under some tie-break, so index-path and scan-path filters are held to the same specification. A soak stage runs the same machine over 600-1800 steps on tiny stores and over stores of 1025-2050 events; filter lists of 100-160 filters and events with 63-256 indexable tags are part of the generators.",
         "level_note": "Trusted: harness/model/query.go (oracle), harness/gen/nip01.go (predicate). Only states reachable through Add. Filter tag values never \"\".",
     },
     "C04": {
         "technique": "stateful property-based testing (rapid) as step-by-step refinement: every observed Add transition must be in the specification's nondeterministic transition relation computed from the observed retained set",
-        "level_text": "Exploration: ~25 transitions per history, thousands of histories per run over all event classes, arrival orders, equal timestamps and capacities 1-8 (and 30-150); each transition is checked against Allowed(S,cap,e) plus the invariants.",
+        "level_text": "Exploration: ~25 transitions per history, thousands of histories per run over all event classes, arrival orders, equal timestamps and capacities 1-8 (and 30-150); each transition is checked against Allowed(S,cap,e) plus the invariants. A soak stage runs the same machine over 600-1800 steps on tiny stores and over stores of 1025-2050 events.",
         "level_note": "Trusted: harness/model/store.go. Equal-timestamp versions, d-less addressable events and address references to replaceable events are admitted either way (statement silent).",
     },
     "C05": {
         "technique": "stateful property-based testing (rapid): multi-author histories with targeted deletion requests; deletion and author-isolation clauses of the transition relation checked at every step",
-        "level_text": "Exploration: same machine as C04 focused on the deletion clauses: exact removal set of each kind-5, suppression while retained, re-insertion after it left, and no effect of one author's events on another's except the capacity victim.",
+        "level_text": "Exploration: same machine as C04 focused on the deletion clauses: exact removal set of each kind-5, suppression while retained, re-insertion after it left, and no effect of one author's events on another's except the capacity victim. A soak stage runs deletion-heavy histories of 900-1800 steps; deletion requests with 31-70 targets and duplicated tags are generated.",
         "level_note": "Trusted: harness/model/store.go (Refs/OpenRef). e values are ids, a values are addresses (the two are not mixed); self-referencing deletion requests cannot exist with hashed ids.",
     },
     "C17": {
         "technique": "property-based testing (rapid): generated middleware stacks / NIP-11 documents x generated message sequences at, below and above each limit, pushed through the real middleware plumbing with barrier messages; oracle = own re-statement of every limit",
-        "level_text": "Exploration over configurations and inputs: each case builds a stack (or the NIP-11 chain), sends 4-14 messages sized around the limits and checks, per message, forwarded-unchanged vs exactly-one-rejection-of-the-right-type, plus pointer-equal ordered pass-through of server messages.",
+        "level_text": "Exploration over configurations and inputs: each case builds a stack (or the NIP-11 chain), sends 4-14 messages sized around the limits and checks, per message, forwarded-unchanged vs exactly-one-rejection-of-the-right-type, plus pointer-equal ordered pass-through of server messages. Limits of 63-65536 are drawn as well; a clock stage re-checks the created_at limits on handlers that have been in service for seconds and have seen a session end.",
         "level_note": "Trusted: harness/handlers/mwmodel.go. Real clock for created_at limits with a 5 s safety margin (closer cases are excluded and counted). Lengths measured on ASCII.",
     },
     "C18": {
         "technique": "stateful property-based testing (rapid): per-connection models (quota set; window of the last W distinct ids) for 1-4 sessions on one shared middleware, interleaved by a generated schedule or run concurrently",
-        "level_text": "Exploration of REQ/CLOSE/EVENT histories over small id alphabets so that every quota/window boundary is crossed in both directions; each session carries its own model, so state leaking between connections is a mismatch.",
+        "level_text": "Exploration of REQ/CLOSE/EVENT histories over small id alphabets so that every quota/window boundary is crossed in both directions; each session carries its own model, so state leaking between connections is a mismatch. A soak stage runs one session of thousands of sightings against windows of 3-1000 ids with repeat runs around round counts.",
         "level_note": "Trusted: the window/quota models in harness/handlers/c18_test.go. An id seen but outside the window may go either way.",
     },
     "C19": {
         "technique": "stateful property-based testing (rapid): generated multi-session schedules against a tally model; Registry.Gather() compared with the model after every barrier echo; concurrent variant compares totals; parallel-directions variant releases a client message and a handler message about the same subscription at the same moment (hundreds of rounds per case)",
-        "level_text": "Exploration of message histories incl. repeated REQ/CLOSE, server CLOSED and sessions ending with open subscriptions; every quiescent point is compared exactly (gauges, per-type and per-kind counters) and pass-through is pointer-equal.",
+        "level_text": "Exploration of message histories incl. repeated REQ/CLOSE, server CLOSED and sessions ending with open subscriptions; every quiescent point is compared exactly (gauges, per-type and per-kind counters) and pass-through is pointer-equal. A soak stage sends 300-2100 distinct kinds and ends 50-600 subscriptions in one session; nil handler messages are generated.",
         "level_note": "Trusted: the tally model in harness/handlers/c19_test.go. The harness's own barrier CLOSE / marker NOTICE messages are part of the tallies.",
     },
     "C08": {
         "technique": "property-based testing (rapid) with a harness-owned deterministic scheduler: scripted child handlers, atomic steps client_send / child_recv / child_emit with NOTICE markers through the merger's own FIFO; REQ model checked per step",
-        "level_text": "Exploration of generated interleavings of child outputs with each other and with client input; because the harness owns every producer the generated schedule is executed exactly (and shrinks), so 'EOSE in the step that completes the set' is an exact safety check.",
+        "level_text": "Exploration of generated interleavings of child outputs with each other and with client input; because the harness owns every producer the generated schedule is executed exactly (and shrinks), so 'EOSE in the step that completes the set' is an exact safety check. A scale stage uses 63-130 children with a generated last finisher.",
         "level_note": "Trusted: the REQ model in harness/handlers/merge_test.go; the FIFO argument of the marker technique (one forwarding goroutine per child, one consumer, NOTICE passes unchanged). Children emit for a subscription only after receiving its REQ; ids re-issued only after their merged EOSE.",
     },
     "C09": {
         "technique": "property-based testing (rapid) with the same deterministic scheduler: children's OK / COUNT replies released in generated interleavings with several requests (and repeated ids) in flight; aggregation model checked per step and at quiescence",
-        "level_text": "Exploration: per step an aggregated reply must appear exactly when the last child answered the oldest open request of that id (verdict = all accepted, rejection text starts with the first rejecting child's reason, COUNT = max); at quiescence #OK(id) == #EVENT(id).",
+        "level_text": "Exploration: per step an aggregated reply must appear exactly when the last child answered the oldest open request of that id (verdict = all accepted, rejection text starts with the first rejecting child's reason, COUNT = max); at quiescence #OK(id) == #EVENT(id). Scale stages: one EVENT unanswered while 300-2100 others complete; 8-40 COUNTs of one id in flight.",
         "level_note": "Trusted: the aggregation model in merge_test.go. 'First rejecting child' accepted as lowest index or earliest in time.",
     },
     "C06": {
@@ -60,27 +60,27 @@ TEXT = {
     },
     "C12": {
         "technique": "property-based testing (rapid) over real loopback WebSocket connections: generated frame sequences (valid, malformed, forged, replayed-with-alteration) against a frame classification oracle and a recording handler; generated handler output decoded by an independent JSON decoder",
-        "level_text": "Exploration: hundreds of connections per run; per connection the handler must have received exactly the valid authentic frames in order, the client exactly one rejection per other frame in order, the connection must survive, and emitted server messages must arrive as equal JSON text frames.",
+        "level_text": "Exploration: hundreds of connections per run; per connection the handler must have received exactly the valid authentic frames in order, the client exactly one rejection per other frame in order, the connection must survive, and emitted server messages must arrive as equal JSON text frames. Relay options are generated (ping 1 min / 3 ms / off, default or unlimited burst, logger on/off); the client reads concurrently; a long-lived-relay stage serves 25-60 connections on one relay.",
         "level_note": "Trusted: the frame oracle (harness/gen wire + corruption classes), btcec for signing, coder/websocket client. JSON null variants are not generated; frames stay within the relay's default MaxMessageLength (a longer frame is answered by closing the connection, the documented size limit). Sentinel CLOSE messages synchronise without sleeps.",
     },
     "C13": {
         "technique": "property-based testing (rapid): generated handler compositions x client histories x cut points x ending modes x peer behaviours with bounded-time termination, goroutine-profile diff, router-registry (hook) and gauge observers; WebSocket send-timeout clause enumerated over ping settings",
-        "level_text": "Exploration: after the generated cut ServeNostr must return within 5 s and the goroutines with a mocrelay frame, router registry and gauges must be back to baseline; for every generated send timeout all three ping settings are run against a non-reading client.",
+        "level_text": "Exploration: after the generated cut ServeNostr must return within 5 s and the goroutines with a mocrelay frame, router registry and gauges must be back to baseline; for every generated send timeout all three ping settings are run against a non-reading client. Dedicated scenarios: large cache answers cut mid-delivery, 255-1030 sessions on one router, a strict receive limit at the cancellation, a SQLite writer blocked by a foreign lock.",
         "level_note": "'Promptly' is a time bound two orders of magnitude above normal latency. Goroutine baseline is taken per case after handler construction (SQLite's bulk inserter is handler-lifetime). Hook: RouterHandler.VerifSubscriptionCount (tag verif).",
     },
     "C20": {
         "technique": "property-based testing (rapid): generated header combinations x mux configurations through httptest (real WebSocket dial for the upgrade route) with an expectation of the served document built independently from the configuration struct; generated NIP-11 documents round-tripped with structural deep equality",
-        "level_text": "Exploration over header/configuration combinations and NIP-11 documents; the document oracle is a generic JSON value constructed by the harness from the generated configuration (omitempty semantics), not the code's own encoder.",
+        "level_text": "Exploration over header/configuration combinations and NIP-11 documents; the document oracle is a generic JSON value constructed by the harness from the generated configuration (omitempty semantics), not the code's own encoder. Empty documents, documents of several kilobytes and re-configuration between two requests are generated.",
         "level_note": "Near-miss Accept spellings (parameters, case, lists) may be routed to the document or to the default handler (statement is about the exact value). Empty Upgrade header not generated. The document is re-requested after the configuration changed (in place / derived copy); every *slog.Logger option of the mux and relay is set or unset by reflection.",
     },
     "C16": {
         "technique": "property-based testing (rapid): generated client message sequences against a deterministic store model (cache handler: complete output compared reply by reply) and a prefix-tolerant model (SQLite handler, asynchronous insertion; exact after an observed flush); differential dump/restore with identical-answer and byte-identical second dump checks",
-        "level_text": "Exploration: the whole reply stream of each generated session is compared with the model's concatenated expected replies; dump/restore is a differential check between the original and the restored handler on generated queries, including caches of 60-150 events with timestamp ties.",
+        "level_text": "Exploration: the whole reply stream of each generated session is compared with the model's concatenated expected replies; dump/restore is a differential check between the original and the restored handler on generated queries, including caches of 60-150 events with timestamp ties. A stalled-writer scenario (foreign write lock, session cancelled while blocked, events published again) and batching by timer are part of the SQLite handler checks.",
         "level_note": "Trusted: harness/model/detstore.go (ties excluded by construction for the cache replies), sqlitemodel.go. SQLite REQ answers may reflect any prefix of the submitted events until the flush marker is visible.",
     },
     "C07": {
         "technique": "property-based testing (rapid) against one shared RouterHandler: (seq) harness-owned global schedule with sentinel flushes and a registry model for exact deliveries; (conc) generated concurrent scripts judged by a real-time must/must-not/may rule over logical timestamps; (stall) back-pressure scenarios with a non-reading subscriber",
-        "level_text": "Exploration: exact per-event delivery sets in the sequential mode (every step runs to completion, FIFO sentinel flush instead of sleeps), sampled Go-scheduler interleavings in the concurrent mode (also under -race in thorough), and bounded-time publisher progress with a stalled subscriber.",
+        "level_text": "Exploration: exact per-event delivery sets in the sequential mode (every step runs to completion, FIFO sentinel flush instead of sleeps), sampled Go-scheduler interleavings in the concurrent mode (also under -race in thorough), and bounded-time publisher progress with a stalled subscriber. Scale stages: 63-300 subscribers, 255-1030 REQ/CLOSE cycles on one connection, a backlogged subscriber closing sibling subscriptions while a publisher keeps publishing.",
         "level_note": "Trusted: registry model + real-time rule (DESIGN.md A.3). Concurrent mode samples the scheduler; it cannot enumerate interleavings inside the registry's locks. 'Never delays publishers' is a 10 s bound (normal: microseconds).",
     },
     "C15": {
@@ -100,7 +100,7 @@ TEXT = {
     },
     "C02": {
         "technique": "property-based testing (rapid): generated events x filters against a naive NIP-01 predicate; LimitMatch/Done sequences against model counters",
-        "level_text": "Exploration: thousands of generated (event, filter) pairs, filter lists and LimitMatch sequences per run are compared with an independent naive implementation of the NIP-01 predicate; sound (oracle is the property text) but not exhaustive.",
+        "level_text": "Exploration: thousands of generated (event, filter) pairs, filter lists and LimitMatch sequences per run are compared with an independent naive implementation of the NIP-01 predicate; sound (oracle is the property text) but not exhaustive. A third of the cases hand the matcher filters decoded from their JSON text (timestamps around 2^53, limits beyond 2^31); a wide-filter stage uses 1-52 tag conditions.",
         "level_note": "Trusted: the naive predicate in harness/gen/nip01.go. Events have >=1 element per tag (the admission gate's guarantee); filter tag values never \"\".",
     },
 }
